@@ -383,7 +383,7 @@ func runC17(p *core.Prog, r *core.Report) {
 		}
 	}
 	// R4
-	r4 := r.Rule("C17.R4", "in-flight marks: the worker un-marks every received address on every path; the scheduler's abandon path un-marks the pending batch", 2)
+	r4 := r.Rule("C17.R4", "in-flight marks: the worker un-marks every received address on every path; the scheduler's abandon path un-marks the pending batch and the address it stopped at", 3)
 	isUnmark := func(in ssa.Instruction) bool {
 		c, ok := in.(ssa.CallInstruction)
 		if !ok || core.CalleeName(c) != "(*sync.Map).Delete" {
@@ -444,6 +444,31 @@ func runC17(p *core.Prog, r *core.Report) {
 					continue
 				}
 				n++
+				// the address being looked at is marked before it joins a batch: the abandon path un-marks it too
+				curUnmarked := false
+				for _, b2 := range sfn.Blocks {
+					if b2 != blk && !blk.Dominates(b2) {
+						continue
+					}
+					for _, i2 := range b2.Instrs {
+						if !isUnmark(i2) {
+							continue
+						}
+						key := i2.(ssa.CallInstruction).Common().Args[1]
+						if mi, isMI := key.(*ssa.MakeInterface); isMI {
+							key = mi.X
+						}
+						if u, isU := key.(*ssa.UnOp); isU {
+							if ia, isIA := u.X.(*ssa.IndexAddr); isIA {
+								if phi, isPhi := ia.X.(*ssa.Phi); isPhi && phi.Comment == "sortedAddrs" {
+									curUnmarked = true
+								}
+							}
+						}
+					}
+				}
+				r4.Check(curUnmarked, core.FuncName(sfn)+"#abandon-path!current-address", p.InstrPos(blk.Instrs[0]), "the address the scheduler stopped at is un-marked too (where it is in no batch yet)",
+					"when the round is given up, the address the scheduler has just marked — a big object waiting for the small batch before it to be handed over — stays in the in-flight set: it is in no batch, nobody flushes it and every later round skips it")
 				r4.Check(core.MustFollow(blk.Instrs[0], pred) || pred(blk.Instrs[0]), core.FuncName(sfn)+"#abandon-path", p.InstrPos(blk.Instrs[0]), "the pending batch is un-marked before the round is abandoned", "when a flush error arrives while a batch is pending, the batch stays marked in-flight and is never scheduled again")
 			}
 		}
